@@ -387,7 +387,7 @@ from_line = Fn(T, 'from_line', impl='CommandLine', ret='r',
     let_types={'commands': 'Vec<Command>'},
     loop_kinds={0: 'value', (0, 'clone'): 'vx_clone_tokens(&{})'},
     ensures=[
-        ('C01+C13.from_line.background_only_unquoted_amp',
+        ('C01+C13+C03+C02.from_line.background_only_unquoted_amp',
          'match r { Ok(cl) => cl.background ==> final(tr).planned.len() > 1 && unq(final(tr).planned.last()) && final(tr).planned.last().1@ == "&"@, Err(_) => true }'),
         ('C07.from_line.background_iff_amp',
          'match r { Ok(cl) => (final(tr).planned.len() > 1 && unq(final(tr).planned.last()) && final(tr).planned.last().1@ == "&"@) ==> cl.background, Err(_) => true }'),
